@@ -61,6 +61,22 @@ CHECKS = {
    note='optimisers are modelled as "may write any value into any Parameter, nothing else"; observation: the inner VectorQuantize of RandomProjectionQuantizer owns a trainable projection (codebook_dim is not forwarded), so optimiser steps can change its indices - outside the property, which speaks about forward calls.',
    technique='Coq proof (induction over operation lists on a named store + computation on regenerated inventories) + regenerated inventories/write sites + random-loop correspondence (bit-exact)',
    ref='DESIGN.md section 4 C20'),
+ 'C02': dict(
+   text='Theorems (Coq, reals / integers, all layer counts / codebooks / dims): decoding the indices returned by the residual forward reproduces its output (sum of table entries); index -1 decodes to the zero vector; every coarse prefix decodes to the partial sum; '
+        'dropped layers report -1 and a zero code; return_all_codes sums to the output; the mixed-radix index codec is a bijection and distinct indices decode to distinct codes (FSQ / LatentQuantize). '
+        'Tie: residual decoders (mask test == -1, pad value, fill 0, scales, uniform vs layer-by-layer branch) and the public decoders regenerated from the source and pinned; for every class x layout x non-updating mode decode(indices) is compared with the forward output '
+        '(bit-exact FSQ / LFQ / residual forms in eval, 1e-5 otherwise), image layouts with the feature axis last, every dropout depth, every coarse prefix, -1; the model\'s decoder is evaluated in Coq on the returned indices.',
+   note='four decoder defects were repaired (fix: e1c9974, cb34132, c81a07b, f8fd7c6; earlier 9098ab2); known finding: LatentQuantize.indices_to_codes ignores learned values_per_latent. The float32 bit-exact codec statements live under C04.',
+   technique='Coq proof (list induction, reals/integers) + regenerated decoders + round-trip correspondence over all classes/layouts with model decode in Coq',
+   ref='DESIGN.md section 4 C02'),
+ 'C06': dict(
+   text='Theorems (Coq, reals, every number of layers, every per-layer quantizer without assumption): layer k receives exactly x - sum_{i<k} code_i and emits q_k of it (with the running sum as side input for implicit codebooks); output = sum of per-layer codes; '
+        'indices / codes / residuals carry one entry per layer in layer order; with nearest-code layers each index is a nearest code OF ITS RESIDUAL; scalar layers emit s_k * q(r_k / s_k); groups are independent quantizers on consecutive equal chunks whose concatenation is the input; dropout truncates the loop and keeps the prefix unchanged. '
+        'Tie: loop bodies, iteration order, scales, stack / chunk / cat axes of all four residual classes and grouped wrappers regenerated and pinned; ResidualVQ: residuals recomputed exactly from the selected entries inside Coq (layers 1-8, tuple sizes, shared, cosine, projections, masks, train/frozen/eval, after histories); '
+        'ResidualFSQ/LFQ/SimVQ: specification replayed with the layer modules as opaque quantizers; grouped forms vs independent quantizers.',
+   note='known finding: return_all_codes in an updating training step decodes from the already-updated codebooks.',
+   technique='Coq proof (reals, induction over layers, generic in the layer quantizer) + regenerated loop dataflow + per-token correspondence evaluated in Coq',
+   ref='DESIGN.md section 4 C06'),
  'C12': dict(
    text='Theorems (Coq, axiom-free, all n, cutoff, multiple_of, draws r): the layers that run are exactly the prefix {0..k-1} with k = min(n, round_up(r+1, m)); cutoff < k <= n; m | k or k = n; '
         'dropped layers form a suffix; every admissible k is produced by some in-contract draw; dropout is off when not training / indices supplied / dropout disabled / one layer. '
